@@ -14,6 +14,7 @@ import GgrsModel.Proofs.DelayStep
 import GgrsModel.Proofs.LockstepNet
 import GgrsModel.Proofs.EntryPoint
 import GgrsModel.Proofs.DropWorld
+import GgrsModel.Proofs.LockstepDrop
 
 namespace Ggrs
 
@@ -281,7 +282,7 @@ theorem C04_entry_point_lockstep (x y : P2P × TLState) (h0 : LkNetInv x) (hrun 
     LkNetInv (s', execReqs y.2 reqs') ∧ (reqs' = [] ∨ ∃ ins, reqs' = [.advance ins]) :=
   lockstep_call y.1 s' y.2 now reqs' (LkNetInv_drun x y h0 hrun) hmp hng hcall
 
-/-- **C04, the window with dropped players (non-sparse rollback sessions, drops detected locally).**
+/-- **C04, the window with dropped players (rollback sessions, either saving mode; drops detected locally).**
 After any run of arrivals, calls, accepted `disconnect_player` calls and Disconnected events, a
 call that simulates a new frame `c` leaves the stream of every player that is still connected with
 `c - (|vals_p| - 1) ≤ max_prediction`: the session never runs more than `max_prediction` frames
@@ -295,5 +296,21 @@ theorem C04_window_drops (x y : P2P × TLState) (h0 : XInv x) (hrun : XStar x y)
       y.1.sync.currentFrame - ((gh'.specs p).vals.length - 1 : Int) ≤ y.1.maxPrediction := by
   obtain ⟨gh, st0, h⟩ := XInv_run x y h0 hrun
   exact window_allD y.1 s' gh y.2 [] reqs' now st0 h hadv hnew
+
+/-- **C04, lockstep never speculates — with dropped players.** After any run of arrivals, lockstep
+calls, accepted `disconnect_player` calls and Disconnected events, a lockstep call returns no
+request or exactly one AdvanceFrame whose row holds, per player, the real input with status
+Confirmed or (for a player marked disconnected as of an earlier frame) the blank input with
+status Disconnected: nothing is predicted, saved, loaded or re-simulated, drops included. -/
+theorem C04_lockstep_drops (x y : P2P × TLState) (h0 : ∃ gh, LkInvD x.1 gh x.2) (hrun : LkXStar x y)
+    (now : Nat) (s' : P2P) (reqs' : List Request) (hadv : y.1.advanceLockstepFrame now [] = .ok (s', reqs')) :
+    ∃ gh', LkInvD s' gh' (execReqs y.2 reqs') ∧
+      ((reqs' = [] ∧ s'.sync.currentFrame = y.1.sync.currentFrame) ∨
+       (∃ c : Nat, y.1.sync.currentFrame = (c : Int) ∧
+         reqs' = [.advance (rowOfD gh' y.1.localConnectStatus y.1.sync.queues.length c)] ∧
+         s'.sync.currentFrame = y.1.sync.currentFrame + 1)) := by
+  obtain ⟨gh, h⟩ := LkInvD_run x y h0 hrun
+  obtain ⟨gh', h', hcase, _⟩ := lockstepTick_specD y.1 s' gh y.2 now reqs' h hadv
+  exact ⟨gh', h', hcase⟩
 
 end Ggrs
